@@ -144,6 +144,10 @@ def probes_for(ex, hist, mstates):
     P.append(["group_by", [s]])
     # R11 duplicate name by rename, R12 by a user suffix
     P.append(["rename", [["x", "g"]]])
+    P.append(["rename", [["x", "q"], ["g", "q"]]])  # two columns renamed to one new name
+    P.append(["rename", [[x, "q"], ["k", "q"], ["g", "g2"]]])
+    P.append(["select", [x, k, x]])  # a column selected twice
+    P.append(["select", [Cn("k"), k]])
     P.append(["rename", [[x, "k"], [g, "k"]]])
     P.append(["join", {"src": "R"}, "inner", [["eq", k, src("R", "k")]], {"suffix": "_s"}])  # w + _s == w_s
     # R13 grouped / same-origin tables, full join with a non-equality
